@@ -33,7 +33,6 @@ TrimL(s) == LET f[i \in 1..(Len(s) + 1)] == IF i > Len(s) THEN i ELSE IF IsWs(s[
 TrimR(s) == LET f[i \in 0..Len(s)] == IF i = 0 THEN 0 ELSE IF IsWs(s[i]) THEN f[i - 1] ELSE i
             IN SubSeq(s, 1, f[Len(s)])
 Trim(s) == TrimR(TrimL(s))
-Lower(c) == IF c >= 65 /\ c <= 90 THEN c + 32 ELSE c
 bJsScheme == <<106,97,118,97,115,99,114,105,112,116,58>>                       \* javascript:
 \* README: "strip default protocols (http:, https: and javascript:)"
 StripJs(s) == IF Len(s) >= 11 /\ [i \in 1..11 |-> Lower(s[i])] = bJsScheme THEN SubSeq(s, 12, Len(s)) ELSE s
@@ -110,7 +109,9 @@ SlotStep(e, reg, calls, st, i) ==
        ELSE
          LET c == calls[st.ci]
              ok == /\ (c.sid = en.id) \/ RJ("WRONGMIN", i)
-                   /\ SameParams(c.params, t.params) \/ RJ("PARAMS", i)
+                   /\ (\/ SameParams(c.params, t.params)
+                       \/ HasAlt(slot.kind, slot.hastype, slot.type) /\ SameParams(c.params, AltParams(slot.kind, slot.hastype, slot.type)))
+                        \/ RJ("PARAMS", i)
                    /\ PayloadOK(slot, c) \/ RJ("PAYLOAD", i)
                    /\ (en.cmd # 0 \/ c.sid # en.id \/ c.out = StubOut(c.sid, c.payload)) \/ RJ("ORACLE", i)
                    \* "minified exactly as their own minifier would": same bytes as a direct call on the same content
